@@ -381,8 +381,19 @@ fn job_scan(job: &Value, leaf_cache: &LeafCache) -> Value {
         }
     };
     let cached = job.get("cached").and_then(|c| c.as_bool()).unwrap_or(false);
+    let simple = job.get("simple").and_then(|c| c.as_bool()).unwrap_or(false);
     let _ = verif::take_minimizer_log();
-    let (scanner, class, msg) = build(&modes, cached);
+    let (scanner, class, msg) = if simple {
+        // ScannerBuilder::add_patterns: one mode, token type = index of the pattern
+        let pats: Vec<String> = modes_json[0]["patterns"].as_array().unwrap().iter().map(|p| p["p"].as_str().unwrap().to_string()).collect();
+        match catch_unwind(AssertUnwindSafe(|| ScannerBuilder::new().add_patterns(pats).build())) {
+            Ok(Ok(s)) => (Some(s), "ok", String::new()),
+            Ok(Err(e)) => (None, error_class(&e), e.to_string()),
+            Err(p) => (None, "panic", panic_message(p)),
+        }
+    } else {
+        build(&modes, cached)
+    };
     let minlog = verif::take_minimizer_log();
     res.insert("build".into(), json!(class));
     if !msg.is_empty() {
